@@ -457,6 +457,13 @@ Proof.
   apply Stoch_invalid_false. repeat split; lra.
 Qed.
 
+(* generate_events: the rows of day d are the clipped draws with arrival shifted by 24*d hours *)
+Lemma day_rows_cons b d raw rest :
+  day_rows b d (raw :: rest) =
+  (map (fun r => let '(a, du, e) := clip_row b r in (a + 24 * inject_Z d, du, e)) raw
+   ++ day_rows b (d + 1) rest)%list.
+Proof. reflexivity. Qed.
+
 (* the row loop: exactly the valid rows are converted, in order, and carry their row index *)
 Definition row_valid (r : row) : bool := let '(a, d, e) := r in negb (Stoch_invalid a d e).
 
